@@ -117,6 +117,13 @@ _HARDCODED_EXCLUDE_DIRS: frozenset[str] = frozenset(
 )
 
 
+# Alternative configuration section names per rule-id prefix
+_SECTION_ALIASES: dict[str, tuple[str, ...]] = {
+    "improper-logging": ("print-statements",),
+    "collection-pipeline": ("pipeline",),
+}
+
+
 def _is_hardcoded_excluded(file_path: Path) -> bool:
     """Check if file should be excluded based on hardcoded patterns.
 
@@ -372,9 +379,26 @@ class Orchestrator:  # thailint: ignore[srp]
         """
         violations = []
         for rule in rules:
+            if self._is_rule_disabled(rule):
+                continue
             rule_violations = self._safe_check_rule(rule, context)
             violations.extend(self._drop_suppressed(rule_violations, context))
         return violations
+
+    def _is_rule_disabled(self, rule: BaseLintRule) -> bool:
+        """Honour `enabled: false` in the rule's configuration section for every linter.
+
+        The section is named after the rule id prefix, spelled with hyphens or underscores
+        (plus the documented alternative section names).
+        """
+        prefix = rule.rule_id.split(".")[0]
+        names = [prefix, *_SECTION_ALIASES.get(prefix, ())]
+        for name in names:
+            for key in (name, name.replace("-", "_")):
+                section = self.config.get(key)
+                if isinstance(section, dict) and section.get("enabled") is False:
+                    return True
+        return False
 
     def _drop_suppressed(
         self, violations: list[Violation], context: BaseLintContext
